@@ -32,9 +32,10 @@ static ini_p  g_ini;
 static int    g_faulty;
 
 static const char *SECTS[] = { "s", "S", "main", "Main", "net", "a b", "sec]x" };
-static const char *NAMES[] = { "a", "A", "b", "key", "KEY", "Key", "port", "port_range", "PORT", "x", "port_range_max", "k=" };
+/* "v[1]"/"v{1}", "t^x"/"t~x", "u_v"/"u\x7fv": pairs that differ exactly in bit 0x20 like 'A'/'a' do, but are NOT letters */
+static const char *NAMES[] = { "a", "A", "b", "key", "KEY", "Key", "port", "port_range", "PORT", "x", "port_range_max", "v[1]", "v{1}", "t^x", "t~x", "k=" };
 #define NSECT 7
-#define NNAME 11   /* "k=" is only used inside parsed text (name containing '=' cannot exist) */
+#define NNAME 15   /* "k=" is only used inside parsed text (name containing '=' cannot exist) */
 
 /* ------------------------------------------------------------------ model */
 static void ml_classify(mline *l) {
@@ -149,6 +150,8 @@ static int gen_value(uint8_t *out, int len, unsigned seed) {
 	unsigned x = seed * 2654435761u + 12345u;
 	if (len > 260) len = 260;
 	for (int i = 0; i < len; i++) { x = x * 1103515245u + 12345u; out[i] = (uint8_t)alpha[(x >> 16) % (sizeof(alpha) - 1)]; }
+	/* a value may end in a carriage return of its own (only the CR of the line end belongs to the line end) */
+	if (len > 0 && (seed % 11u) == 3u) { out[len - 1] = '\r'; if (len > 1 && (seed % 22u) == 3u) out[len - 2] = '\r'; }
 	return len;
 }
 static size_t gen_text(uint8_t *out, size_t cap, unsigned seed, int nlines, int dups, int crlf_mode, int final_nl) {
@@ -174,11 +177,11 @@ static size_t gen_text(uint8_t *out, size_t cap, unsigned seed, int nlines, int 
 			if (k % 5 == 0) off += (size_t)sprintf((char *)out + off, " ; trailing"); /* text after ']' stays in the line */
 		} else if (k < 70) {
 			int nm, vl;
-			x = x * 1103515245u + 12345u; nm = (int)((x >> 16) % (dups ? 4 : 12));
+			x = x * 1103515245u + 12345u; nm = (int)((x >> 16) % (dups ? 4 : (NNAME + 1)));
 			if (!dups) {
 				int tries = 0;
-				if (nm == 11 && (used_names & (1u << 11))) nm = 0;
-				while ((used_names & (1u << nm)) && tries++ < 12) nm = (nm + 1) % 12;
+				if (nm == NNAME && (used_names & (1u << NNAME))) nm = 0;
+				while ((used_names & (1u << nm)) && tries++ < NNAME + 1) nm = (nm + 1) % (NNAME + 1);
 				if (used_names & (1u << nm)) continue;
 				used_names |= 1u << nm;
 			}
